@@ -177,3 +177,28 @@ let fs (toks : string list) : string =
     String.concat " ; " (go s0 first su.rest [("new:ok @ " ^ first)])
 
 let () = register "fs" fs
+
+(* ---------------- C12: the per-game configuration table ---------------- *)
+let fscfg (toks : string list) : string =
+  match toks with
+  | [_base; g; l; nl] ->
+    let ls = List.init (int_of_string nl) (fun _ -> ([] : layer)) in
+    (match fs_new ls (fs_lang (int_of_string l)) (fs_game (int_of_string g)) with
+     | FErr e -> show_err e
+     | FPanic _ -> "panic"
+     | FOk s ->
+       let c = s.conf in
+       let endian = (match c.c_endian with Bytes.BE -> "big" | Bytes.LE -> "little") in
+       let text = (match c.c_text with ShiftJIS -> "shiftjis" | Unicode -> "utf16") in
+       let loc = Localize.(match c.c_loc with GNoOp -> "NoOp" | GFE9 -> "FE9" | GFE10 -> "FE10" | GFE13 -> "FE13"
+                                            | GFE14 -> "FE14" | GFE15 -> "FE15") in
+       let lang = Localize.(match s.lng with EnglishNA -> 0 | EnglishEU -> 1 | Japanese -> 2 | Spanish -> 3 | French -> 4
+                                           | Italian -> 5 | German -> 6 | Dutch -> 7) in
+       let probe name =
+         let scal = List.init (String.length name) (fun i -> n_of_int (Char.code name.[i])) in
+         name ^ "=" ^ (if is_compressed c.c_comp scal then (match c.c_comp with LZ10 -> "10" | LZ13 -> "13") else "raw") in
+       Printf.sprintf "ok endian=%s text=%s loc=%s lang=%d %s" endian text loc lang
+         (String.concat " " (List.map probe ["x.lz"; "x.cmp"; "x.cms"; "x.bin"; "x.lz.bak"; "lz"])))
+  | _ -> failwith "fscfg: bad case"
+
+let () = register "fscfg" fscfg
